@@ -52,7 +52,7 @@ type call struct {
 
 // calls builds every way the case is called: defun + call, funcall/apply of the name, lambda + funcall,
 // lambda + apply with the last list split at every point.
-func calls(c Case) (out []call) {
+func calls(c Case, valid bool) (out []call) {
 	ps := c.Params()
 	// every parameter is also a body form of its own (a bare symbol in the body is compiled apart from one in a call)
 	body := "(vt:mark 'entered) " + strings.Join(ps, " ") + " (list " + strings.Join(ps, " ") + ")"
@@ -82,6 +82,17 @@ func calls(c Case) (out []call) {
 		call{style: "funcall-function", src: wrap("(progn " + def + " (funcall #'" + name + args + "))"), defun: name},
 		call{style: "apply-name", src: wrap("(progn " + def + " (apply '" + name + " '(" + strings.Join(c.Args, " ") + ")))"), defun: name},
 	)
+	if valid && len(c.Args) >= 2 {
+		// the call is written once in a function that calls itself while the last argument of that call is being
+		// evaluated: the activation of the same call expression inside gets another first argument; the outer one must
+		// still bind its own arguments. Run twice, the second time every call expression is resolved already.
+		n := len(c.Args)
+		rec := name + "r"
+		site := "(" + name + " (if (= n 2) " + evalArg(c.Args[0]) + " 'c04-inner)" + evalArgs(c.Args[1:n-1]) +
+			" (progn (ignore-errors (" + rec + " (- n 1))) " + evalArg(c.Args[n-1]) + "))"
+		out = append(out, call{style: "reentrant-call-site", defun: name,
+			src: wrap("(progn " + def + " (defun " + rec + " (n) (if (< n 1) nil " + site + ")) (ignore-errors (" + rec + " 2)) (vt:mark 'second-run) (" + rec + " 2))")})
+	}
 	for k := 0; k <= len(c.Args); k++ {
 		lst := "'(" + strings.Join(c.Args[k:], " ") + ")"
 		out = append(out, call{style: "apply-lambda/" + strconv.Itoa(k), src: wrap("(apply " + lam + evalArgs(c.Args[:k]) + " " + lst + ")")})
@@ -139,7 +150,7 @@ func runA(c Case) *h.Result {
 		res.Skip = tag
 		return res
 	}
-	cs := calls(c)
+	cs := calls(c, v.reject == "")
 	res.Evals = len(cs)
 	ps := c.Params()
 	for _, cl := range cs {
@@ -149,6 +160,9 @@ func runA(c Case) *h.Result {
 		in := entered()
 		if cl.defun != "" {
 			slip.CurrentPackage.Undefine(cl.defun)
+			if slip.FindFunc(cl.defun+"r") != nil {
+				slip.CurrentPackage.Undefine(cl.defun + "r")
+			}
 		}
 		fail := func(format string, args ...any) *h.Result {
 			res.Err = fmt.Sprintf("%s: %s\n  lambda list %s args (%s)\n  source %s\n  outcome %s", cl.style, fmt.Sprintf(format, args...),
